@@ -742,6 +742,86 @@ def rule_stencil(chk, ci, concrete):
                        func='%s.%s' % (c2.name, f.name), detail_bad='stencil loops: %d (expected one per axis)' % len(hw), detail_ok='one loop per axis')
 
 
+def rule_coindexed(chk):
+    """x, y, z and h of one particle are read with one index: inside a loop the coordinate and smoothing-length pointers of the
+    same array family must be subscripted by the same expression"""
+    import re
+    rels = [os.path.relpath(p, REPO) for p in sorted(glob.glob(os.path.join(REPO, 'pysph/base/*_nnps.pyx'))) if 'gpu' not in p]
+    rels += ['pysph/base/octree.pyx', NB]
+    n = 0
+    for rel in rels:
+        t = M.cy(rel)
+        for fn in [f for f in ast.walk(t) if isinstance(f, ast.FunctionDef)]:
+            # innermost loops (or the function body when it has none)
+            scopes = [l for l in ast.walk(fn) if isinstance(l, (ast.For, ast.While)) and M.enclosing_func(l) is fn]
+            scopes = scopes or [fn]
+            for sc in scopes:
+                fam = {}
+                for x in ast.walk(sc):
+                    if isinstance(x, ast.Subscript) and isinstance(x.ctx, ast.Load):
+                        base = compact(x.value)
+                        m = re.match(r'^(.*?)(?:_)?([xyzh])(_ptr)?(\.data)?$', base)
+                        if not m or base in ('x', 'y', 'z', 'h') or isinstance(x.slice, ast.Constant):
+                            continue
+                        family = (m.group(1), m.group(3) or '', m.group(4) or '')
+                        if not family[0] and not family[1]:
+                            continue
+                        # loops nested deeper are judged on their own
+                        inner = M.enclosing(x, (ast.For, ast.While))
+                        if sc is not fn and inner is not sc:
+                            continue
+                        fam.setdefault(family, {}).setdefault(m.group(2), set()).add(compact(x.slice))
+                for family, comps in fam.items():
+                    if 'h' not in comps or not ({'x', 'y', 'z'} & set(comps)):
+                        continue
+                    n += 1
+                    coord_idx = set().union(*[v for k, v in comps.items() if k != 'h'])
+                    inst = '%s:%s:%s*' % (rel.split('/')[-1], M.qualname(fn), family[0] or 'ptr')
+                    ok = comps['h'] <= coord_idx
+                    chk.decide(ok, 'coordinates-and-h-of-one-particle', inst + '@%d' % getattr(sc, 'lineno', 0), node=sc, file=rel, func=M.qualname(fn),
+                               detail_bad='in this loop the smoothing length is read at index %s but the coordinates of the same array at %s: h of a different '
+                                          'particle enters the radius / hmax computation' % (sorted(comps['h'] - coord_idx), sorted(coord_idx)),
+                               detail_ok='h and coordinates indexed alike (%s)' % sorted(comps['h']))
+    chk.floor('loops reading coordinates and h of one array', n, 20)
+
+
+def rule_cell_size(chk):
+    """every array contributes to the cell size on every update (3x3x3 stencil sufficiency)"""
+    t = M.cy(NB)
+    dm = M.find_class(t, 'CPUDomainManager')
+    fn = M.find_func(dm, '_compute_cell_size_for_binning')
+    loops = [l for l in fn.body if isinstance(l, ast.For)]
+    ok = len(loops) == 1 and compact(loops[0].iter) in ('pa_wrappers', 'self.pa_wrappers')
+    if ok:
+        l = loops[0]
+        skip = [x for x in ast.walk(l) if isinstance(x, (ast.Continue, ast.Break, ast.Return))]
+        top = [compact(s) for s in l.body]
+        ok = not skip and any(s == 'h.update_min_max()' for s in top) and any(s.startswith('_hmax=h.maximum') for s in top) and \
+            any(isinstance(s, ast.If) and compact(s.test) == '_hmax>hmax' for s in l.body)
+    chk.decide(ok, 'cell-size-covers-every-array', '_compute_cell_size_for_binning', node=fn, file=NB, func='CPUDomainManager._compute_cell_size_for_binning',
+               detail_bad='some particle array can be skipped when the maximum smoothing length is gathered (conditional / continue inside the loop over arrays): '
+                          'if its h is the largest the cells become smaller than radius_scale*max(h) and the 3x3x3 stencil misses neighbours',
+               detail_ok='every array: update_min_max(), fold h.maximum')
+    cs = [a for a in ast.walk(fn) if isinstance(a, ast.Assign) and compact(a.targets[0]) == 'cell_size' and 'hmax' in compact(a.value)]
+    chk.decide(bool(cs) and compact(cs[0].value) in ('self.radius_scale*hmax', 'hmax*self.radius_scale'), 'cell-size-covers-every-array', 'cell_size', node=fn, file=NB,
+               func='CPUDomainManager._compute_cell_size_for_binning', detail_bad='cell size is not radius_scale*hmax', detail_ok='radius_scale*hmax')
+    up = M.find_func(dm, 'update')
+    g = C.build_cfg(up)
+    first = [n.id for n in g.nodes if n.ast is not None and isinstance(n.ast, ast.Expr) and M.call_name(n.ast.value) == 'self._compute_cell_size_for_binning']
+    chk.decide(bool(first) and g.must_pass(g.entry, g.exit, first), 'cell-size-covers-every-array', 'recomputed-on-every-domain-update', node=up, file=NB,
+               func='CPUDomainManager.update', detail_bad='cell size is not recomputed on every domain update', detail_ok='first statement of update()')
+    nn = M.find_class(t, 'NNPS')
+    u2 = M.find_func(nn, 'update')
+    chk.decide('self.cell_size=domain.manager.cell_size' in compact(u2), 'cell-size-covers-every-array', 'nnps-uses-domain-cell-size', node=u2, file=NB, func='NNPS.update',
+               detail_bad='NNPS.update does not take the cell size computed by the domain manager', detail_ok='self.cell_size = domain.manager.cell_size')
+    w = M.find_class(t, 'NNPSParticleArrayWrapper')
+    gp = M.find_func(w, 'get_number_of_particles')
+    rets = [r for r in ast.walk(gp) if isinstance(r, ast.Return)]
+    live = bool(rets) and all(isinstance(r.value, ast.Call) and M.call_name(r.value).endswith('.get_number_of_particles') for r in rets)
+    chk.decide(live, 'cell-size-covers-every-array', 'wrapper-count-is-live', node=gp, file=NB,
+               func='NNPSParticleArrayWrapper.get_number_of_particles', detail_bad='wrapper returns a cached particle count', detail_ok='asks the particle array')
+
+
 def main(chk):
     chk.explanation = ('Necessary conditions shared by the 12 CPU NNPS classes (enumerated as subclasses of NNPS in the Cython sources): the '
                        'acceptance test is symbolically resolved (backward substitution + polynomial normal form) to d2 < (k h_dst)^2 or d2 < (k h_src)^2 '
@@ -758,6 +838,15 @@ def main(chk):
     rule_update(chk, ci, concrete)
     rule_duplicates(chk)
     rule_stencil(chk, ci, concrete)
+    rule_coindexed(chk)
+    rule_cell_size(chk)
+    # only valid indices, no duplicates: a sort of the result must touch exactly the slice this query appended (rule shared with C05)
+    import importlib.util
+    spec = importlib.util.spec_from_file_location('c05mod', os.path.join(os.path.dirname(os.path.abspath(__file__)), 'c05.py'))
+    c05 = importlib.util.module_from_spec(spec)
+    spec.loader.exec_module(c05)
+    ci5, classes5 = c05.nnps_classes()
+    c05.rule_sorting(chk, ci5, classes5, [c.name for r, c in concrete if c.name != 'DictBoxSortNNPS'])
     chk.assume('geometric exactness of binning/hashing/tree construction for all inputs (floor/ceil on runtime coordinates, collisions) is not decided')
 
 
